@@ -44,13 +44,13 @@ ASSUMPTIONS = [
     "relative input/output paths are generated only in script mode, where CMake's cwd and the child's cwd coincide",
     "the find_package(cminx) packaging path (cminx-config.cmake.in + PyInstaller) is not covered",
 ]
-PROBES = ["extra_repeated_token", "stub_ok", "stub_exit_nonzero", "stub_killed", "stub_stderr_exit0", "stub_missing", "stub_noexec", "real_peer",
+PROBES = ["two_calls_one_process", "extra_repeated_token", "stub_ok", "stub_exit_nonzero", "stub_killed", "stub_stderr_exit0", "stub_missing", "stub_noexec", "real_peer",
           "real_peer_failing_input", "driver_project", "driver_script", "input_dir", "input_file", "input_missing",
           "extra_with_space", "extra_with_special", "extra_flag_value", "relative_paths"]
 
 EXTRA_POOL = ["-p", "pfx", "My Prefix", "-e", "*.txt", "build/", "**/gen", "[ab]*.cmake", "-s", "--version-not",
               "a b  c", "quo\"te", "dol$lar", "${NOT_A_VAR}", "#hash", "back\\slash", "-x", "--", "semi-colon-free", "tab\there",
-              "'single'", "(paren)", "@AT@", "*", "?"]
+              "'single'", "(paren)", "@AT@", "*", "?", "my-repo", "*-release*", "-r", "--recursive", "pre-r-post"]
 STUB = r'''#!/bin/sh
 for a in "$@"; do printf '%s\0' "$a"; done >> "$STUB_REC"
 printf '\001' >> "$STUB_REC"
@@ -108,8 +108,17 @@ def strategy(cfg):
                 extra = extra + [draw(st.sampled_from(extra))]      # a repeated token (two -e flags, equal values)
             plan = draw(st.sampled_from(["ok", "ok", "ok", "exit:1", "exit:3", "exit:255", "kill:9", "kill:11", "stderr",
                                          "missing", "noexec"]))
+        second = None
+        if mode == "stub" and plan == "ok" and draw(st.integers(0, 3)) == 0:
+            # a second, different call in the same CMake process (arguments differing only in punctuation)
+            def twist(x):
+                for a, b in (("-", "_"), (".", "-"), ("_", "."), (" ", "_")):
+                    if a in x:
+                        return x.replace(a, b)
+                return x + "_2"
+            second = {"output": twist(outp), "extra": [twist(e) if i == len(extra) - 1 else e for i, e in enumerate(extra)]}
         return {"mode": mode, "driver": driver, "files": files, "input": inp, "input_kind": kind, "output": outp,
-                "extra": extra, "cwd": cwd, "plan": plan}
+                "extra": extra, "cwd": cwd, "plan": plan, "second": second}
     return world()
 
 
@@ -127,8 +136,12 @@ def write_driver(base, spec, peer):
     extra = [e.replace("{BASE}", base) for e in spec["extra"]]
     body = (f"set(CMINX_EXECUTABLE {bracket(peer)})\n"
             f"include({bracket(os.path.join(core.REPO, 'cmake', 'cminx.cmake'))})\n"
-            f"cminx_gen_rst({bracket(inp)} {bracket(outp)} {' '.join(bracket(e) for e in extra)})\n"
-            f"file(WRITE {bracket(os.path.join(base, 'sentinel.txt'))} continued)\n")
+            f"cminx_gen_rst({bracket(inp)} {bracket(outp)} {' '.join(bracket(e) for e in extra)})\n")
+    if spec.get("second"):
+        o2 = spec["second"]["output"].replace("{BASE}", base)
+        e2 = [e.replace("{BASE}", base) for e in spec["second"]["extra"]]
+        body += f"cminx_gen_rst({bracket(inp)} {bracket(o2)} {' '.join(bracket(e) for e in e2)})\n"
+    body += f"file(WRITE {bracket(os.path.join(base, 'sentinel.txt'))} continued)\n"
     if spec["driver"] == "script":
         path = os.path.join(base, "drive.cmake")
         with open(path, "w") as f:
@@ -222,7 +235,15 @@ def evaluate(spec, ctx):
             ctx.note_case(core.spec_digest([body.replace(base, "{BASE}"), plan]), nontriv)
             ctx.last_trace = core.spec_digest([calls and [a.replace(base, "{BASE}") for a in calls[0]], p.returncode != 0, sentinel])
             ctx.trace_digests.add(ctx.last_trace)
-            if plan not in ("missing", "noexec"):
+            if spec.get("second"):
+                ctx.probes["two_calls_one_process"] += 1
+                o2 = spec["second"]["output"].replace("{BASE}", base)
+                e2 = [e.replace("{BASE}", base) for e in spec["second"]["extra"]]
+                want2 = [inp] + (["-r"] if is_dir else []) + e2 + ["-o", o2]
+                if calls != [want_argv, want2]:
+                    viols.append(viol("calls-not-forwarded-one-by-one",
+                                      f"two cminx_gen_rst() calls; peer saw {calls!r}, expected {[want_argv, want2]!r}"))
+            elif plan not in ("missing", "noexec"):
                 if len(calls) != 1:
                     viols.append(viol("peer-invocation-count", f"CMINX_EXECUTABLE was started {len(calls)} times; cmake rc "
                                       f"{p.returncode}; stderr {p.stderr[-200:]!r}"))
